@@ -882,6 +882,9 @@ INFO = {
             'distinct = distinct trace digests',
             'components': _COMPONENTS, 'assumptions': _ASSUME},
 }
+for _v in INFO.values():
+    _v['rule'] += (
+        '; swarm dimensions (see probes): crowds of 7-10 waiters, timers up to 2**31, hair-short frames, Fraction / Decimal / non-binary rational steps, a second and an unrelated third processor, hand-over between processors, kill/restart churn (also driven from inside a body), generator look-alikes')
 PROBES = {
     'C08': ['timer_restart_with_new_wait_same_frame',
             'two_deadlines_one_frame', 'equal_deadlines',
